@@ -75,3 +75,14 @@ Definition gen_generic_inverse_ok : bool :=
   && Nat.eqb (List.length (sk_body gen_skeleton "GenericSpatialTransform.inverse")) 5
   && sk_before gen_skeleton "GenericSpatialTransform.update" "call:self._data()" "call:transform.data_(p)"
   && sk_before gen_skeleton "GenericSpatialTransform.update" "call:transform.data_(p)" "call:super().update()".
+
+(* the functional accessors data(arg), grid(arg), unlink() give their shallow copy a private _parameters dict;
+   condition(...) and grid(arg) of a composite copy the members one level *)
+Definition gen_accessor_private : bool :=
+  sk_before gen_skeleton "ParametricTransform.data" "call:shallow_copy(self)" "set:copy._parameters=copy._parameters.copy()"
+  && sk_before gen_skeleton "SpatialTransform.grid" "call:shallow_copy(self)" "set:copy._parameters=copy._parameters.copy()"
+  && sk_before gen_skeleton "SpatialTransform.grid" "set:copy._parameters=copy._parameters.copy()" "call:copy.grid_(grid)"
+  && sk_before gen_skeleton "ParametricTransform.unlink" "call:shallow_copy(self)" "set:copy._parameters=copy._parameters.copy()"
+  && sk_has gen_skeleton "CompositeTransform.condition" "call:self._copy_with_transforms().condition_(*args, **kwargs)"
+  && sk_has gen_skeleton "CompositeTransform.grid" "call:self._copy_with_transforms().grid_(grid)"
+  && sk_has gen_skeleton "CompositeTransform._copy_with_transforms" "call:shallow_copy(transform)".
